@@ -15,6 +15,7 @@ import (
 	"encoding/hex"
 	"fmt"
 	"math/rand"
+	"net"
 	"os"
 	"reflect"
 	"runtime"
@@ -25,6 +26,7 @@ import (
 
 	"github.com/btcsuite/btcd/btcec/v2"
 	"github.com/lightningnetwork/lnd/tlv"
+	"github.com/lightningnetwork/lnd/tor"
 	"pgregory.net/rapid"
 )
 
@@ -569,6 +571,259 @@ func (c *c10) mutations(enc []byte, others [][]byte, thorough bool) {
 	}
 }
 
+// ---- content mutations with valid framing ---------------------------------
+
+var c10elemSizes = []int{1, 2, 4, 8, 16, 32, 33, 64, 66}
+
+// c10grow appends one more "element" of e bytes to v: a copy of the last e
+// bytes with the final byte bumped (keeps sorted lists sorted), or random
+// bytes when v is shorter than e.
+func (c *c10) grow(v []byte, e int) []byte {
+	out := append([]byte{}, v...)
+	if len(v) >= e {
+		el := append([]byte{}, v[len(v)-e:]...)
+		if el[e-1] < 0xff {
+			el[e-1]++
+		}
+		return append(out, el...)
+	}
+	return append(out, c.bytes(e)...)
+}
+
+// c10tailOffsets: every offset (>= 2) from which the encoding parses as a
+// non-empty canonical TLV stream; the true start of the extension tail and
+// each of its record boundaries are among them.  At most the smallest and the
+// three largest are returned.
+func c10tailOffsets(enc []byte) []int {
+	var offs []int
+	for off := 2; off < len(enc); off++ {
+		if len(enc)-off > 8192 {
+			continue
+		}
+		if rs, ok := c10parseTail(enc[off:]); ok && len(rs) > 0 {
+			offs = append(offs, off)
+		}
+	}
+	if len(offs) > 4 {
+		offs = append([]int{offs[0]}, offs[len(offs)-3:]...)
+	}
+	return offs
+}
+
+// tlvContent: grow / shrink the VALUE of each record of the extension tail by
+// one element of several plausible sizes, keeping type/length framing
+// canonical.  Targets cross-field consistency constraints (a record whose
+// element count is tied to another field) and per-record length checks.
+func (c *c10) tlvContent(enc []byte, thorough bool) {
+	for _, off := range c10tailOffsets(enc) {
+		rs, _ := c10parseTail(enc[off:])
+		pre := enc[:off]
+		for i := range rs {
+			sizes := []int{1, 8, c10elemSizes[c.rng.Intn(len(c10elemSizes))]}
+			if thorough {
+				sizes = c10elemSizes
+			}
+			for _, e := range sizes {
+				x := append([]c10rec{}, rs...)
+				x[i].v = c.grow(rs[i].v, e)
+				c.msg(fmt.Sprintf("tlvval-grow-%d", e), c10cat(pre, c10encRecs(x)))
+				if len(rs[i].v) >= e {
+					y := append([]c10rec{}, rs...)
+					y[i].v = rs[i].v[:len(rs[i].v)-e]
+					c.msg(fmt.Sprintf("tlvval-shrink-%d", e), c10cat(pre, c10encRecs(y)))
+				}
+			}
+			// first element dropped / duplicated (count changes, framing valid)
+			if len(rs[i].v) >= 9 {
+				y := append([]c10rec{}, rs...)
+				y[i].v = append(append([]byte{}, rs[i].v[:1]...), rs[i].v[9:]...)
+				c.msg("tlvval-drop-first-8", c10cat(pre, c10encRecs(y)))
+			}
+		}
+	}
+}
+
+// blobContent: the same for u16-length-prefixed blobs of the fixed part
+// (encoded id lists, address lists, scripts, payloads): every position whose
+// big-endian u16 is a length L > 0 such that the blob ends exactly where the
+// message ends or where a canonical TLV tail starts.  The blob grows/shrinks
+// by one element and the length prefix is fixed up.
+func (c *c10) blobContent(enc []byte, thorough bool) {
+	n := len(enc)
+	cands := 0
+	for p := 2; p+2 < n && cands < 6; p++ {
+		l := int(binary.BigEndian.Uint16(enc[p:]))
+		end := p + 2 + l
+		if l == 0 || end > n || n-end > 8192 {
+			continue
+		}
+		if end < n {
+			if _, ok := c10parseTail(enc[end:]); !ok {
+				continue
+			}
+		}
+		cands++
+		blob := enc[p+2 : end]
+		put := func(kind string, nb []byte) {
+			if len(nb) > 65535 {
+				return
+			}
+			hdr := []byte{byte(len(nb) >> 8), byte(len(nb))}
+			c.msg(kind, c10cat(enc[:p], hdr, nb, enc[end:]))
+		}
+		sizes := []int{1, 8, c10elemSizes[c.rng.Intn(len(c10elemSizes))]}
+		if thorough {
+			sizes = c10elemSizes
+		}
+		for _, e := range sizes {
+			put(fmt.Sprintf("blob-grow-%d", e), c.grow(blob, e))
+			if len(blob) >= e {
+				put(fmt.Sprintf("blob-shrink-%d", e), blob[:len(blob)-e])
+			}
+		}
+		// length prefix off by one with the content untouched
+		for _, d := range []int{-1, 1} {
+			if l+d >= 0 && l+d <= 65535 {
+				b := append([]byte{}, enc...)
+				binary.BigEndian.PutUint16(b[p:], uint16(l+d))
+				c.msg("blob-len-delta", b)
+			}
+		}
+	}
+}
+
+// ---- address lists ([]net.Addr fields) ---------------------------------------
+
+var c10addrSliceType = reflect.TypeOf([]net.Addr(nil))
+
+// c10setAddrs stores addrs into every settable []net.Addr field of m.
+func c10setAddrs(v reflect.Value, addrs []net.Addr, depth int) bool {
+	if depth > 4 {
+		return false
+	}
+	switch v.Kind() {
+	case reflect.Ptr, reflect.Interface:
+		if v.IsNil() {
+			return false
+		}
+		return c10setAddrs(v.Elem(), addrs, depth+1)
+	case reflect.Struct:
+		found := false
+		for i := 0; i < v.NumField(); i++ {
+			f := v.Field(i)
+			if f.Type() == c10addrSliceType && f.CanSet() {
+				f.Set(reflect.ValueOf(addrs))
+				found = true
+			} else if f.Kind() == reflect.Struct || f.Kind() == reflect.Ptr {
+				if c10setAddrs(f, addrs, depth+1) {
+					found = true
+				}
+			}
+		}
+		return found
+	}
+	return false
+}
+
+const c10hostChars = "abcdefghijklmnopqrstuvwxyz0123456789-."
+
+// one address of the given descriptor kind (1 tcp4, 2 tcp6, 3 tor v2, 4 tor v3,
+// 5 DNS hostname, 6 unknown type with a payload of random length).
+func (c *c10) addr(kind int) net.Addr {
+	port := 1 + c.rng.Intn(65535)
+	switch kind {
+	case 1:
+		return &net.TCPAddr{IP: net.IP(c.bytes(4)), Port: port}
+	case 2:
+		return &net.TCPAddr{IP: net.IP(c.bytes(16)), Port: port}
+	case 3:
+		return &tor.OnionAddr{
+			OnionService: tor.Base32Encoding.EncodeToString(c.bytes(tor.V2DecodedLen)) + tor.OnionSuffix,
+			Port:         port,
+		}
+	case 4:
+		return &tor.OnionAddr{
+			OnionService: tor.Base32Encoding.EncodeToString(c.bytes(tor.V3DecodedLen)) + tor.OnionSuffix,
+			Port:         port,
+		}
+	case 5:
+		l := []int{1, 2, 11, 63, 64, 200, 255}[c.rng.Intn(7)]
+		h := make([]byte, l)
+		for i := range h {
+			h[i] = c10hostChars[c.rng.Intn(len(c10hostChars))]
+		}
+		return &DNSAddress{Hostname: string(h), Port: uint16(port)}
+	}
+	pl := []int{0, 1, 2, 5, 30}[c.rng.Intn(5)]
+	return &OpaqueAddrs{Payload: append([]byte{byte(6 + c.rng.Intn(250))}, c.bytes(pl)...)}
+}
+
+// addrLists: every ordered pair of known descriptor kinds, every known kind
+// followed by an unknown-type descriptor (which must come last: it swallows
+// the rest of the list), singletons, and a few longer random lists.
+func (c *c10) addrLists() [][]net.Addr {
+	var out [][]net.Addr
+	for a := 1; a <= 6; a++ {
+		out = append(out, []net.Addr{c.addr(a)})
+		if a == 6 {
+			continue
+		}
+		for b := 1; b <= 6; b++ {
+			out = append(out, []net.Addr{c.addr(a), c.addr(b)})
+		}
+	}
+	for i := 0; i < 6; i++ {
+		var l []net.Addr
+		for j := c.rng.Intn(6); j >= 0; j-- {
+			l = append(l, c.addr(1+c.rng.Intn(5)))
+		}
+		if c.rng.Intn(2) == 0 {
+			l = append(l, c.addr(6))
+		}
+		out = append(out, l)
+	}
+	return out
+}
+
+// addrBlobMutations: byte-level edits of the address list inside a valid
+// encoding: after every descriptor insert an unknown-type descriptor / a
+// padding (type 0) descriptor, cut inside a descriptor, all with the u16
+// length fixed up.
+func (c *c10) addrBlobMutations(enc []byte, addrs []net.Addr) {
+	var whole bytes.Buffer
+	if err := WriteNetAddrs(&whole, addrs); err != nil || whole.Len() <= 2 {
+		return
+	}
+	p := bytes.Index(enc, whole.Bytes())
+	if p < 0 {
+		return
+	}
+	blob := whole.Bytes()[2:]
+	end := p + 2 + len(blob)
+	put := func(kind string, nb []byte) {
+		hdr := []byte{byte(len(nb) >> 8), byte(len(nb))}
+		c.msg(kind, c10cat(enc[:p], hdr, nb, enc[end:]))
+	}
+	pos := 0
+	for _, a := range addrs {
+		var one bytes.Buffer
+		if err := WriteNetAddrs(&one, []net.Addr{a}); err != nil {
+			return
+		}
+		pos += one.Len() - 2
+		if pos > len(blob) {
+			return
+		}
+		unk := append([]byte{byte(6 + c.rng.Intn(250))}, c.bytes([]int{0, 1, 3}[c.rng.Intn(3)])...)
+		put("addr-insert-unknown", c10cat(blob[:pos], unk, blob[pos:]))
+		put("addr-unknown-last", c10cat(blob[:pos], unk))
+		put("addr-insert-pad", c10cat(blob[:pos], []byte{0}, blob[pos:]))
+		if pos >= 2 {
+			put("addr-cut", blob[:pos-1-c.rng.Intn(2)])
+		}
+	}
+}
+
 // sizeBoundary: pad a valid encoding up to the 65535 limit with one unknown
 // record / raw bytes so that the total hits 65533..65535 exactly.
 func (c *c10) sizeBoundary(enc []byte, thorough bool) {
@@ -621,9 +876,9 @@ func TestVerifC10(t *testing.T) {
 	}
 	c.pf("FACT types=%s", strings.Join(ts, ","))
 
-	nGen, nMutated := 10, 4
+	nGen, nMutated, nContent := 10, 4, 10
 	if thorough {
-		nGen, nMutated = 250, 80
+		nGen, nMutated, nContent = 250, 80, 60
 	}
 
 	for ti, mt := range types {
@@ -636,6 +891,7 @@ func TestVerifC10(t *testing.T) {
 			return m.(TestMessage).RandTestMessage(rt)
 		})
 		var encs [][]byte
+		addrSeed := -1
 		for i := 0; i < nGen; i++ {
 			var m Message
 			func() {
@@ -655,6 +911,48 @@ func TestVerifC10(t *testing.T) {
 			}
 			encs = append(encs, enc)
 			c.msg("valid", enc)
+			if c10setAddrs(reflect.ValueOf(m), nil, 0) && addrSeed < 0 {
+				addrSeed = int(seed)*1000003 + ti*1009 + i
+			}
+		}
+		// messages with []net.Addr fields: address lists composed of all
+		// descriptor kinds in all orders (the package generator only
+		// produces tcp4/tcp6), as values and as byte-level edits.
+		if addrSeed >= 0 {
+			lists := c.addrLists()
+			if !thorough {
+				c.rng.Shuffle(len(lists), func(i, j int) { lists[i], lists[j] = lists[j], lists[i] })
+			}
+			for li, addrs := range lists {
+				var m Message
+				func() {
+					defer func() {
+						if r := recover(); r != nil {
+							m = nil
+						}
+					}()
+					m = gen.Example(addrSeed)
+				}()
+				if m == nil || !c10setAddrs(reflect.ValueOf(m), addrs, 0) {
+					break
+				}
+				enc := c.val("gen-addrs", mt, m)
+				if enc == nil {
+					continue
+				}
+				c.msg("valid", enc)
+				if thorough || li < 12 {
+					c.addrBlobMutations(enc, addrs)
+				}
+			}
+		}
+		// content mutations with valid framing, on every generated encoding
+		for i, enc := range encs {
+			if i >= nContent {
+				break
+			}
+			c.tlvContent(enc, thorough)
+			c.blobContent(enc, thorough)
 		}
 		// the empty message of the type (all-zero value) is also a value
 		if m, err := makeEmptyMessage(mt); err == nil {
